@@ -345,6 +345,36 @@ def catalogue(rng, level=0, classes=None):
     # Abel
     from scico.linop.abel import AbelTransform
     add("AbelTransform", dict(shape=(4, 5)), lambda: AbelTransform((4, 5)), kind=APPROX)
+    # ---- later additions (appended so that the indices / random draws of the entries above stay what they were)
+    # circular convolution with filter and input of different fields: real filter on a complex space (complex-
+    # linear, complex output) and complex filter on a real space (real-linear map R^n -> C^n)
+    for (xs, hs, nd, hc) in [((4,), (2,), None, None), ((3, 4), (2, 2), None, (0, 1)), ((2, 3, 4), (2, 2), 2, None)]:
+        for (hdt, dt) in [(F64, C128), (C128, F64)]:
+            h = rand_dyadic_np(rng, hs, cplx=is_complex(hdt)).astype(hdt)
+            add("CircularConvolve", dict(shape=xs, h=repr(h.tolist()), ndims=nd, h_center=hc, dtype=np.dtype(dt).name,
+                                         hdtype=np.dtype(hdt).name),
+                lambda xs=xs, h=h, nd=nd, hc=hc, dt=dt: linop.CircularConvolve(snp.array(h), xs, ndims=nd, input_dtype=dt, h_center=hc),
+                kind=APPROX)
+    # projected gradients: axes in every order (incl. the 3-cycles, which are not their own inverse), equal and
+    # unequal axis lengths, extra (batch) axes, explicit centre, subsets of the local axes, central differences
+    pol = [dict(shape=(3, 4), axes=(1, 0)), dict(shape=(3, 3), axes=(1, 0), center=(0.5, 1.0)), dict(shape=(2, 3, 3), axes=(2, 0)),
+           dict(shape=(3, 4), cdiff=True), dict(shape=(4, 3), center=(1.0, 1.0))]
+    for c in pol:
+        add("PolarGradient", dict(c), lambda c=c: PolarGradient(c["shape"], axes=c.get("axes"), center=c.get("center"),
+                                                               cdiff=c.get("cdiff", False), input_dtype=F64), kind=APPROX)
+    cyl = [dict(shape=(3, 3, 3), axes=(1, 2, 0)), dict(shape=(2, 3, 4), axes=(2, 0, 1)), dict(shape=(3, 2, 3), axes=(0, 2, 1)),
+           dict(shape=(2, 3, 2, 2), axes=(3, 1, 2)), dict(shape=(3, 2, 2), angular=False), dict(shape=(2, 3, 2), radial=False, axial=False)]
+    for c in cyl:
+        add("CylindricalGradient", dict(c), lambda c=c: CylindricalGradient(
+            c["shape"], axes=c.get("axes"), angular=c.get("angular", True), radial=c.get("radial", True),
+            axial=c.get("axial", True), input_dtype=F64), kind=APPROX)
+    sph = [dict(shape=(3, 3, 3), axes=(1, 2, 0)), dict(shape=(3, 3, 3), axes=(2, 0, 1)), dict(shape=(2, 3, 4), axes=(1, 2, 0)),
+           dict(shape=(2, 2, 2, 2), axes=(3, 1, 2)), dict(shape=(3, 2, 3), axes=(2, 1, 0)), dict(shape=(2, 3, 2), center=(0.5, 1.0, 0.0)),
+           dict(shape=(3, 2, 2), azimuthal=False), dict(shape=(2, 2, 3), polar=False, radial=False), dict(shape=(3, 3, 2), cdiff=True)]
+    for c in sph:
+        add("SphericalGradient", dict(c), lambda c=c: SphericalGradient(
+            c["shape"], axes=c.get("axes"), center=c.get("center"), azimuthal=c.get("azimuthal", True), polar=c.get("polar", True),
+            radial=c.get("radial", True), cdiff=c.get("cdiff", False), input_dtype=F64), kind=APPROX)
     return out
 
 
